@@ -632,17 +632,28 @@ def _op_reopen(S, out, op):
 
 
 def _op_merge(S, out, op):
-    from armi.bookkeeping.db.database import Database
-
     written = sorted({(c, n) for (c, n, _l) in S.model})
     if not written:
         return
     if op["beyond"]:
-        start = (99, 99) if (99, 99) not in written else None
-        if start is None:
-            return
+        starts = [(99, 99)] if (99, 99) not in written else []
     else:
-        start = written[op["midx"] % len(written)]
+        starts = [written[op["midx"] % len(written)]]
+    # restart points inside a cycle that already has earlier nodes, and the very last step, are tried as well
+    inside = [s for q, s in enumerate(written) if q > 0 and written[q - 1][0] == s[0] and s not in starts]
+    starts += inside[: 2 - len(starts) + 1]
+    if written[-1] not in starts and len(starts) < 3:
+        starts.append(written[-1])
+    for q, start in enumerate(starts):
+        _merge_once(S, out, op, start, load=(q == 0))
+        if out.violations:
+            break
+    S.counts["merge"] += 1
+
+
+def _merge_once(S, out, op, start, load):
+    from armi.bookkeeping.db.database import Database
+
     names = _expected_names(S)
     want = []
     for nm in names:
@@ -664,7 +675,7 @@ def _op_merge(S, out, op):
                 if d is not None:
                     out.fail("merge/content", "mergeHistory copy of %s: %s" % (nm, d))
                     break
-            if want:
+            if want and load:
                 nm = want[op["obj2"] % len(want)]
                 key = [k for k in S.model if _group_name(*k) == nm][0]
                 r2 = db2.load(key[0], key[1], cs=S.cs, bp=S.bp, statePointName=key[2])
@@ -674,9 +685,10 @@ def _op_merge(S, out, op):
     finally:
         db2.close(True)
         _rm(fn2)
-    S.counts["merge"] += 1
     if 0 < len(want) < len(names):
         S.counts["merge-partial"] += 1
+    if any(nm[1:3] == "%02d" % start[0] for nm in want):
+        S.counts["merge-restart-inside-a-cycle"] += 1
 
 
 def _op_split(S, out, op):
@@ -688,8 +700,12 @@ def _op_split(S, out, op):
     keep = [s for q, s in enumerate(written) if (op["kmask"] >> (q % 12)) & 1]
     if not keep:
         keep = [written[op["midx"] % len(written)]]
+    # the order of the request must not matter: latest step first, or rotated
     if op["flag"]:
-        keep.reverse()  # the order of the request must not matter
+        keep.sort(reverse=True)
+    else:
+        k = op["midx"] % len(keep)
+        keep = keep[k:] + keep[:k]
     old_names = _expected_names(S)
     min_cycle = min(c for c, _n in keep)
     backup = S.db.splitDatabase(list(keep), "-bak")
@@ -744,6 +760,10 @@ def _op_split(S, out, op):
         S.counts["split-renumbered"] += 1
     if len(keep) < len(old_names):
         S.counts["split-strict-subset"] += 1
+    if len({c for c, _n in keep}) > 1:
+        S.counts["split-2+cycles"] += 1
+        if keep[0][0] != min_cycle:
+            S.counts["split-2+cycles-unordered-request"] += 1
 
 
 def _rm(*names):
